@@ -229,7 +229,13 @@ def power_array(value, combination):
     nneg, npos = -min(npowers), max(ppowers)
     # store negative powers at end of array, so can use negative indexing:
     p = np.zeros(1 + npos + nneg, float64)
-    p[0], p[1], p[-1] = 1.0, value, 1.0 / value
+    p[0], p[1] = 1.0, value
+    try:
+        p[-1] = 1.0 / value
+    except ZeroDivisionError:
+        # zero value: the -1st power is infinite (as it already is for a numpy zero);
+        # only matters if a negative power is actually used
+        p[-1] = np.inf
     for c in combination:
         p[c[0]] = p[c[1][0]]
         for mult in c[1][1:]:
